@@ -208,6 +208,14 @@ def _oneline(args):
             rc = impl.assemble_recorded(line + '\n', compress=True)
             if rc['status'] != 'ok':
                 rows[-1].append(['refused-with-compression', line, str(rc['status'])[:200]])
+            # the same operand written as an expression whose value lies between two integers: not representable at all
+            sig = enc.ALLSIG[m]
+            if sig and isinstance(sig[-1], tuple) and m not in enc.NO_EXPR and not m.endswith('.w') and rng.random() < 0.15:
+                parts = [str(enc.spell_reg(v, 2)) if s_ in ('r', 'p') else str(v) for s_, v in zip(sig[:-1], ops[:-1])]
+                frac = (m + ' ' + ', '.join(parts + ['(2 * (%d) + 1) / 2' % ops[-1]])).strip()
+                rf = impl.assemble_recorded(frac + '\n', compress=False)
+                if rf['status'] == 'ok':
+                    rows[-1].append(['accepted-non-integral', frac, rf['out'].hex()])
         elif rec['status'] == 'ok':
             rows.append(enc._row(m, ops, 'ok', 0xffffffff))
         else:
@@ -245,9 +253,12 @@ def c06(run, scratch):
         for part in ex.map(_oneline, jobs):
             trows.extend(part)
     for x in trows:
-        if len(x) > 6:
+        while len(x) > 6:
             extra = x.pop()
-            run.violation('AcceptedWhenLegal', {'mnemonic': x[0], 'via': 'text, compression on'}, {'line': extra[1], 'status': extra[2], 'accepted_without_compression': True})
+            if extra[0] == 'accepted-non-integral':
+                run.violation('RefusedWhenIllegal', {'mnemonic': x[0], 'via': 'text, non-integral expression'}, {'line': extra[1], 'emitted': extra[2]})
+            else:
+                run.violation('AcceptedWhenLegal', {'mnemonic': x[0], 'via': 'text, compression on'}, {'line': extra[1], 'status': extra[2], 'accepted_without_compression': True})
     _judge_rows(run, trows, scratch, want, 'text')
     # acceptance in whole programs: a pseudo-branch / j / jal whose final offset is legal is accepted wherever its documented
     # base instruction is (range edges, late-settling items in between)
@@ -343,6 +354,8 @@ def _pair_rows(args):
         insts = _split_insts(rec['out'][prefix_items:]) if prefix_items == 0 else None
         return rec
 
+    # (every word-aligned low part up to 124 too: the window of c.lw / c.sw, whose offset bits are scattered)
+    values = list(values) + [0x40021000 + lo for lo in range(0, 128, 4)]
     # literal / constant kinds, many pairs per program
     lines, expect = [], []
     for v in values:
